@@ -232,7 +232,7 @@ static void timeseries_histogram_fill(struct cmi_dataset_histogram *hp,
     /* Distribute x-values to bins */
     for (uint64_t ui = 0u; ui < n - 1u; ui++) {
         /* In what bin does this x-value belong? */
-        uint16_t bin;
+        unsigned bin;
         const double x = xa[ui];
         if (x < hp->low_lim) {
             bin = 0u;
@@ -241,7 +241,7 @@ static void timeseries_histogram_fill(struct cmi_dataset_histogram *hp,
             bin = hp->num_bins - 1u;
         }
         else {
-            bin = 1u + (uint16_t)((x - hp->low_lim) / hp->binsize);
+            bin = 1u + (unsigned)((x - hp->low_lim) / hp->binsize);
         }
 
         /* Add it to that bin and note the high-water mark */
